@@ -266,20 +266,23 @@ impl<V: Clone> CacheRing<V> {
     pub fn delete(&self, key: &str) -> bool {
         let key_hash = Self::hash_key(key);
 
-        let Some(slot_idx) = self.index.write().remove(&key_hash) else {
+        // Index entry and slot go together under the write locks (lock order: slots, then
+        // index). Removing the index entry first and the slot later let a concurrent put
+        // of the same key create a second copy, and the stale slot stayed visible to scans.
+        let mut slots = self.slots.write();
+        let mut index = self.index.write();
+
+        let Some(&slot_idx) = index.get(&key_hash) else {
             return false;
         };
-
-        let mut slots = self.slots.write();
-        if let Some(ref entry) = slots[slot_idx] {
-            if entry.key == key {
-                slots[slot_idx] = None;
-                drop(slots);
-                self.count.fetch_sub(1, Ordering::Relaxed);
-                return true;
-            }
+        if slots[slot_idx].as_ref().is_some_and(|entry| entry.key == key) {
+            slots[slot_idx] = None;
+            index.remove(&key_hash);
+            drop(index);
+            drop(slots);
+            self.count.fetch_sub(1, Ordering::Relaxed);
+            return true;
         }
-        drop(slots);
 
         false
     }
